@@ -92,3 +92,11 @@ Definition xenc_case_ok (k : xenc_case) : bool :=
     end
   end.
 Definition xenc_mismatches (l : list xenc_case) : list nat := mism xenc_case_ok 0 l.
+
+(* containment run, dubbo / tars listener: (codec tables, bytes sent, closed by the server?) *)
+Definition xconn_case := (xcodec * bytes * bool)%type.
+Definition xconn_case_ok (k : xconn_case) : bool :=
+  match k with
+  | (c, b, closed) => let s := feed (x_parse c) init b in Bool.eqb (dead s) closed && negb (stuck s)
+  end.
+Definition xconn_mismatches (l : list xconn_case) : list nat := mism xconn_case_ok 0 l.
